@@ -45,7 +45,17 @@ Definition render_obs (outs : list out) (ncalls : N) (pos : N) : bytes :=
 Definition render_spec (outs : list out) (pos : N) : bytes :=
   join (B ",") (map out_tok outs) ++ B ";pos=" ++ dec_of_N pos.
 
-(* ---- parsing the case ---- *)
+(* ---- parsing the case ----
+   Base.Bytes.split_on reverses its accumulator with List.rev (quadratic); units are up to 128 K characters, so the
+   driver uses its own linear tokenizer *)
+Fixpoint split_fast_aux (sep : byte) (l cur : bytes) : list bytes :=
+  match l with
+  | [] => [rev_append cur []]
+  | c :: r => if beq c sep then rev_append cur [] :: split_fast_aux sep r [] else split_fast_aux sep r (c :: cur)
+  end.
+Definition split_fast (sep : byte) (l : bytes) : list bytes := split_fast_aux sep l [].
+Definition words_fast (l : bytes) : list bytes := filter (fun w => negb (is_nil w)) (split_fast sp l).
+
 Definition parse_ans (t : bytes) : option ans :=
   if lbeq t (B "E") then Some AEof
   else if lbeq t (B "X") then Some AIoErr
@@ -58,10 +68,10 @@ Fixpoint parse_all {A B} (f : A -> option B) (l : list A) : option (list B) :=
   end.
 
 Definition parse_script (s : bytes) : option (list ans) :=
-  if lbeq s (B "-") then Some [] else parse_all parse_ans (split_on ","%byte s).
+  if lbeq s (B "-") then Some [] else parse_all parse_ans (split_fast ","%byte s).
 
 Definition parse_unit (u : bytes) : option (bytes * N) :=
-  match split_on ":"%byte u with
+  match split_fast ":"%byte u with
   | [h; k] => match bytes_of_hex h, N_of_dec k with Some b, Some n => Some (b, n) | _, _ => None end
   | _ => None
   end.
@@ -123,7 +133,7 @@ Definition class_field (ms : list smsg) (cut : nat) : bytes :=
   end.
 
 Definition run_case (line : bytes) : outp :=
-  match words line with
+  match words_fast line with
   | f :: mode :: cut :: script :: units =>
       if negb (lbeq f (B "F")) then bad_case else
       match N_of_dec cut, parse_script script, parse_all parse_unit units with
